@@ -136,6 +136,21 @@ def run(ctx: Ctx) -> dict:
                 api_ops.append({"op": rng.choice(("iban.new", "iban.validate")), "t": cps(iban), "vb": True})
                 if rng.random() < 0.2:
                     api_ops.append({"op": "bban.nat", "t": cps(iban)})
+    # one account per PATH CLASS of every method (c14.path_class_accounts), asked directly and through
+    # the IBAN of a bank that uses the method: the rare branches (remainder 1, sub-account variants ...)
+    import c14
+    first_bank = {}
+    for code, meth in sorted(banks.items()):
+        first_bank.setdefault(meth, code)
+    for meth, accts in c14.path_class_accounts(ctx, rng, 9 if ctx.quick else 14, "c07").items():
+        for a in accts:
+            for v in with_every_check_digit(a, meth):
+                ops.append({"op": "algo.validate", "method": meth, "account": cps(v)})
+                if meth in first_bank and v != a and ctx.quick:
+                    continue
+                if meth in first_bank:
+                    b = first_bank[meth] + v
+                    api_ops.append({"op": "iban.new", "t": cps("DE" + gen.check_digits("DE", b) + b), "vb": True})
     import fuzz
     api_ops = fuzz.extend(ctx, api_ops, "c07api", n_seeds=800)
     ops = fuzz.extend(ctx, ops, "c07", n_seeds=1600, methods=METHODS)
